@@ -21,6 +21,9 @@ def corpus(rng):
               for i in range(1, 9) if rng.random() < 0.6}
     if not fields:
         fields = {'sigfield1': b'x'}
+    while sum(map(len, fields.values())) > 900:
+        k = max(fields, key=lambda x: len(fields[x]))
+        fields[k] = fields[k][:len(fields[k]) // 2]
     flags = rng.choice(('00', '01', '0f', 'f0', '80'))
     committed = S.from_src(rng.choice((
         'true', 'push x0102 sha256 pop0 true',
